@@ -37,9 +37,9 @@ def check_case(case):
         vals = []
         for k in range(len(T)):
             if sp["kind"] == "dstate":
-                vals.append(float(g(T[k], Y[k], prob.f(T[k], Y[k]))))
+                vals.append(float(np.reshape(g(T[k], Y[k], prob.f(T[k], Y[k])), ())))
             else:
-                vals.append(float(g(T[k], Y[k])))
+                vals.append(float(np.reshape(g(T[k], Y[k]), ())))
         for k in range(len(T) - 1):
             g0, g1 = vals[k], vals[k + 1]
             if g0 * g1 < 0:
